@@ -50,7 +50,7 @@ Without(s, ks) == SelectSeq(s, LAMBDA k: ~Contains(ks, k))
 \* release_action_mappings
 ReleaseActionMappings(st) ==
   LET add(acc, m) == IF IsActionMapping(m) /\ Len(m.to) > 1 /\ IsAnyModifier(m.to)
-                     THEN acc \o SelectSeq(Reverse(m.to), LAMBDA k: Contains(st.mapped, k))
+                     THEN acc \o SelectSeq(Reverse(m.to), LAMBDA k: Contains(st.mapped, k) /\ ~Contains(acc, k))
                      ELSE acc
       ktr == FoldLeft(add, <<>>, st.active)
   IN [st |-> [st EXCEPT !.mapped = Without(@, ktr), !.pass = Without(@, ktr)], ev |-> Rs(ktr)]
@@ -121,17 +121,27 @@ PressOutputs(st, ks) ==
            rest == PressOutputs(r.st, Tail(ks))
        IN [st |-> rest.st, ev |-> r.ev \o rest.ev]
 
-\* add_new_mapping(state, new_key, m)
-AddNewMapping(st, newKey, m) ==
+\* the pass-through keys the new mapping touches are consumed: released unless the mapping outputs them,
+\* in which case they become mapped outputs (first block of add_new_mapping, and again after
+\* release_absorbed_keys, which may have handed keys back to pass-through)
+Consume(st, m) ==
   LET touched(k) == Contains(m.from, k) \/ Contains(m.to, k)
       relPass == SelectSeq(st.pass, LAMBDA k: touched(k) /\ ~Contains(m.to, k))
       movPass == SelectSeq(st.pass, LAMBDA k: touched(k) /\ Contains(m.to, k))
-      s1 == [st EXCEPT !.pass = SelectSeq(@, LAMBDA k: ~touched(k)), !.mapped = @ \o movPass]
-      e1 == Rs(relPass)
+  IN [st |-> [st EXCEPT !.pass = SelectSeq(@, LAMBDA k: ~touched(k)), !.mapped = @ \o movPass], ev |-> Rs(relPass)]
+
+\* add_new_mapping(state, new_key, m)
+AddNewMapping(st, newKey, m) ==
+  LET c1 == Consume(st, m)
+      s1 == c1.st
+      e1 == c1.ev
       r2 == IF IsActionMapping(m)
             THEN LET a == ReleaseActionMappings(s1)
                      b == IF a.st.abstrig = None \/ a.st.abstrig # Some(newKey)
-                          THEN ReleaseAbsorbedKeys(a.st) ELSE [st |-> a.st, ev |-> <<>>]
+                          THEN LET x == ReleaseAbsorbedKeys(a.st)
+                                   y == Consume(x.st, m)
+                               IN [st |-> y.st, ev |-> x.ev \o y.ev]
+                          ELSE [st |-> a.st, ev |-> <<>>]
                  IN [st |-> b.st, ev |-> a.ev \o b.ev]
             ELSE [st |-> s1, ev |-> <<>>]
       r3 == PressOutputs(r2.st, m.to)
